@@ -179,6 +179,7 @@ Definition SE2 : GroupOps F := {|
   g_smallAdj := se2_smallAdj; g_generator := se2_generator; g_vee := se2_vee;
   g_bracket := fun a b => mvmul (se2_smallAdj a) b;
   g_innerweights := se2_innerweights;
-  g_trandom := se2_trandom
+  g_trandom := se2_trandom;
+  g_grandom := fun u => se2_exp (se2_trandom u)
 |}.
 End SE2.
